@@ -12,6 +12,8 @@ import (
 	cidlink "github.com/ipld/go-ipld-prime/linking/cid"
 	"github.com/ipni/go-libipni/ingest/schema"
 	"github.com/libp2p/go-libp2p/core/crypto"
+	"github.com/libp2p/go-libp2p/core/record"
+	"github.com/multiformats/go-multihash"
 
 	"verif/harness/vf"
 )
@@ -265,6 +267,44 @@ var adMuts = []adMut{
 	}},
 }
 
+// deprecatedAdSig is the record a main envelope sealed before the payload was corrected: same domain and codec, the
+// payload being multihash.Encode (a header, not a digest) of previous+entries+provider+addresses+metadata+isRm.
+type deprecatedAdSig struct{ payload []byte }
+
+func (r *deprecatedAdSig) Domain() string                 { return "indexer" }
+func (r *deprecatedAdSig) Codec() []byte                  { return []byte("/indexer/ingest/adSignature") }
+func (r *deprecatedAdSig) MarshalRecord() ([]byte, error) { return r.payload, nil }
+func (r *deprecatedAdSig) UnmarshalRecord(b []byte) error { r.payload = b; return nil }
+
+func sealDeprecatedAdSignature(ad *schema.Advertisement, key crypto.PrivKey) ([]byte, error) {
+	var buf bytes.Buffer
+	if ad.PreviousID != nil {
+		buf.Write(ad.PreviousID.(cidlink.Link).Cid.Bytes())
+	} else {
+		buf.Write(cid.Undef.Bytes())
+	}
+	buf.Write(ad.Entries.(cidlink.Link).Cid.Bytes())
+	buf.WriteString(ad.Provider)
+	for _, a := range ad.Addresses {
+		buf.WriteString(a)
+	}
+	buf.Write(ad.Metadata)
+	if ad.IsRm {
+		buf.WriteByte(1)
+	} else {
+		buf.WriteByte(0)
+	}
+	payload, err := multihash.Encode(buf.Bytes(), multihash.SHA2_256)
+	if err != nil {
+		return nil, err
+	}
+	env, err := record.Seal(&deprecatedAdSig{payload: payload}, key)
+	if err != nil {
+		return nil, err
+	}
+	return env.Marshal()
+}
+
 func c05SignVerify(c *vf.Ctx) {
 	const sub = "sign-verify-mutate"
 	if !c.Active(sub) {
@@ -375,6 +415,21 @@ func c05SignVerify(c *vf.Ctx) {
 		}
 		for _, e := range envs {
 			orig := *e.get(ad)
+			// 3a. one envelope stripped (absent, empty), every other envelope left genuine
+			for _, strip := range [][]byte{nil, {}} {
+				b := cloneAd(ad)
+				*e.get(b) = strip
+				w := func() any {
+					return adWitness(b, map[string]any{"envelope": e.name, "mutation": "signature-stripped", "shape": sh.String(), "signer": signer.String()})
+				}
+				c.Guard(sub, i, w, func() {
+					if _, err := b.VerifySignature(); err == nil {
+						c.Fail(sub, i, "stripped-envelope-verifies", e.name+" envelope removed, the others genuine", w())
+					}
+				})
+				c.Eval(1)
+				c.Inc("env_stripped")
+			}
 			for _, f := range []string{"public_key", "payload_type", "payload", "signature"} {
 				for rep := 0; rep < 2; rep++ {
 					alt, pos, ok := alterInField(r, orig, f)
@@ -419,6 +474,71 @@ func c05SignVerify(c *vf.Ctx) {
 			})
 			c.Eval(1)
 			c.Inc("main_removed")
+		}
+		// 5. the same advertisement under a main envelope that seals the deprecated payload (the multihash *header* over
+		// the raw concatenation, which VerifySignature still accepts): the extended-provider clauses hold for it as well
+		if ad.ExtendedProvider != nil && len(ad.ExtendedProvider.Providers) > 0 {
+			if oldSig, err := sealDeprecatedAdSignature(ad, signer.Priv); err == nil {
+				o := cloneAd(ad)
+				o.Signature = oldSig
+				accepted := false
+				c.Guard(sub, i, func() any { return adWitness(o, map[string]any{"format": "deprecated"}) }, func() {
+					got, err := o.VerifySignature()
+					accepted = err == nil && got == signer.ID
+				})
+				if !accepted {
+					c.Inc("deprecated_format_not_accepted")
+				} else {
+					c.Inc("deprecated_format_accepted")
+					type dv struct {
+						name string
+						f    func(b *schema.Advertisement) bool
+					}
+					dvs := []dv{}
+					for k := range o.ExtendedProvider.Providers {
+						k := k
+						dvs = append(dvs, dv{fmt.Sprintf("ep%d-signature-stripped", k), func(b *schema.Advertisement) bool {
+							b.ExtendedProvider.Providers[k].Signature = nil
+							return true
+						}}, dv{fmt.Sprintf("ep%d-signature-altered", k), func(b *schema.Advertisement) bool {
+							alt, _, ok := alterInField(r, b.ExtendedProvider.Providers[k].Signature, "signature")
+							if !ok || sameEnvelope(alt, b.ExtendedProvider.Providers[k].Signature) {
+								return false
+							}
+							b.ExtendedProvider.Providers[k].Signature = alt
+							return true
+						}})
+					}
+					if len(o.ExtendedProvider.Providers) > 1 {
+						dvs = append(dvs, dv{"main-provider-removed", func(b *schema.Advertisement) bool {
+							var keep []schema.Provider
+							for _, p := range b.ExtendedProvider.Providers {
+								if p.ID != b.Provider {
+									keep = append(keep, p)
+								}
+							}
+							b.ExtendedProvider.Providers = keep
+							return true
+						}})
+					}
+					for _, v := range dvs {
+						b := cloneAd(o)
+						if !v.f(b) {
+							continue
+						}
+						w := func() any {
+							return adWitness(b, map[string]any{"format": "deprecated", "variant": v.name, "shape": sh.String(), "signer": signer.String()})
+						}
+						c.Guard(sub, i, w, func() {
+							if _, err := b.VerifySignature(); err == nil {
+								c.Fail(sub, i, "deprecated-format-ad-with-invalid-extended-providers-verifies", v.name, w())
+							}
+						})
+						c.Eval(1)
+						c.Inc("deprecated_format_variants")
+					}
+				}
+			}
 		}
 		if c.WantSample(sub) && sh.EP && len(eps) > 1 {
 			c.Sample(sub, base(nil))
